@@ -16,6 +16,7 @@ import shapes as shp
 BASE = dict(pIssue=30, pGuardCancel=80, pGuardIssue=60, maxBatch=3, wfEvery=5, pendq=1)
 PROFILES = {
     'mixed':     dict(BASE),
+    'c10-diff':  dict(BASE, wPlanEdit=3, wExtStatus=1, pPlanInCb=60, pSucceed=150, pFail=20, pNoPayload=300, wSaveLoad=5),     # differential runs: plans and payload-less tasks included
     'hostile':   dict(BASE, palette=1, wfEvery=1, wReset=2, wExitEnter=2, pGuardCancel=120, pGuardIssue=120, wImmediate=4),
     'requests':  dict(BASE, pGuardCancel=0, pGuardIssue=25, pIssue=60, maxBatch=6, wImmediate=3),
     'single':    dict(BASE, pGuardCancel=60, pGuardIssue=0, pIssue=0, maxBatch=1, wImmediate=5),
@@ -343,7 +344,7 @@ def c10_job(job):
     sj, flavour, binp, mode, seed, steps = job
     tmpd = vlib.scratch(); tag = 'c10-%s-%s-%s-%d-%d' % (sj['name'], flavour, mode, seed, os.getpid())
     base = os.path.join(tmpd, tag + '.base.log')
-    common = ['steps=%d' % steps, 'seed=%d' % seed] + knob_args('mixed' if mode != 'threads' else 'mixed')
+    common = ['steps=%d' % steps, 'seed=%d' % seed] + knob_args('c10-diff')
     out = {'shape': sj['name'], 'desc': sj['desc'], 'cfg': sj['cfg'], 'sj': sj, 'flavour': flavour, 'profile': mode, 'seed': seed, 'steps': steps, 'args': common, 'viol': [], 'ops': 0, 'variants': 0, 'lines': 0}
     def read(p):
         try:
@@ -376,7 +377,7 @@ def c10_job(job):
             tp = p + '.%d' % t
             a = read(tp); rm(tp)
             sp = os.path.join(tmpd, tag + '.single%d.log' % t)
-            rc2, so2, se2 = vlib.run_bin(binp, ['steps=%d' % steps, 'seed=%d' % (seed + t)] + knob_args('mixed') + ['log=' + sp])
+            rc2, so2, se2 = vlib.run_bin(binp, ['steps=%d' % steps, 'seed=%d' % (seed + t)] + knob_args('c10-diff') + ['log=' + sp])
             b = read(sp); rm(sp); out['variants'] += 1
             if b is not None: out['ops'] += ops_of(b); out['lines'] += b.count('\n')
             if a != b and not skey:
@@ -385,7 +386,7 @@ def c10_job(job):
         p = os.path.join(tmpd, tag + '.vg.log')
         import subprocess
         try:
-            r = subprocess.run(['valgrind', '-q', '--error-exitcode=99', '--track-origins=no', binp] + ['steps=%d' % min(steps, 150), 'seed=%d' % seed, 'log=' + p] + knob_args('mixed'), capture_output=True, text=True, timeout=900)
+            r = subprocess.run(['valgrind', '-q', '--error-exitcode=99', '--track-origins=no', binp] + ['steps=%d' % min(steps, 150), 'seed=%d' % seed, 'log=' + p] + knob_args('c10-diff'), capture_output=True, text=True, timeout=900)
             txt = read(p) or ''; rm(p); out['ops'] = ops_of(txt); out['variants'] = 1; out['lines'] = txt.count('\n')
             if r.returncode == 99 or '== Invalid' in r.stderr or 'uninitialised' in r.stderr:
                 out['viol'].append((vlib.sanitizer_key(r.stderr) or 'memcheck:error', {'stderr': r.stderr[-1500:]}))
